@@ -61,9 +61,13 @@ def translation_tie(tag, tool, source_rel, gen_name, proofs_name, theorems, deps
         bad = [m.group(0) for t in (src, proofs) for m in C.FORBIDDEN.finditer(re.sub(r"\(\*.*?\*\)", "", t, flags=re.S))]
         if bad:
             return unavailable("forbidden-construct", ", ".join(bad))
+        m = re.search(r"audited against[^\n]*\n(.*?)\*\)", src, flags=re.S)
+        sites = [l.strip() for l in m.group(1).splitlines() if l.strip()] if m else None
         base = dict(source=source_rel, source_sha256_16=sha, generated="%s (%d bytes)" % (gen_name, len(src)),
                     checker_cmd="tools/%s -repo $VERIF_REPO; coqc -Q coq HV -Q <work> HVSrc %s %s (outside the main build)"
                                 % (tool, gen_name, proofs_name))
+        if sites is not None:
+            base["audited_call_sites"] = sites
         h = hashlib.sha256()
         for t in [src, proofs] + [open(os.path.join(C.COQ, v)).read() for v in deps]:
             h.update(t.encode() + b"\0")
